@@ -19,6 +19,7 @@ EXPLANATION = (
     "final definition of x0 (including the random draw) in the constructor, and a second one on the snapped start point follows its last "
     "modification, both in code the constructor executes unconditionally. R3 the constructor cannot reach the target. R4 the returned x "
     "derives from the incumbent slot. Purity of the user's constraint function is assumed."
+    " R5 the constraint callable the optimizer stores is the constructor's parameter, None, or a wrapper that applies it to its own argument and only reshapes the result."
 )
 
 
